@@ -21,8 +21,12 @@
 #define private public
 #define protected public
 #include <tbox/util/fd.h>
+#include <tbox/base/lifetime_tag.hpp>      // d_ / Detail are private: read for labels and the M line only
 #undef private
 #undef protected
+#if defined(__SANITIZE_ADDRESS__)
+#include <sanitizer/asan_interface.h>
+#endif
 
 using tbox::cabinet::Cabinet;
 using tbox::cabinet::Token;
@@ -84,38 +88,72 @@ static bool cab_line(const std::vector<std::string> &w) {
         for (auto &t : g_toks) v.push_back(objn(c.at(t)));
         std::cout << "P scan " << comma(v) << "\n";
     } else if (op == "each" && w.size() == 3) {
-        std::vector<std::pair<uint64_t, uint64_t>> script;
+        // script items k:ACT — ACT = I (free token I) | aO (alloc object O) | c (clear) | uI.O (update token I)
+        struct Item { uint64_t k; char kind; uint64_t a, b; };
+        std::vector<Item> script;
         if (w[2] != "-") {
             std::string item; std::istringstream is(w[2]);
             if (w[2].back() == ',') return false;
             while (std::getline(is, item, ',')) {
                 auto colon = item.find(':');
                 if (colon == std::string::npos || item.find(':', colon + 1) != std::string::npos) return false;
-                uint64_t k, i;
-                if (!num(item.substr(0, colon), 100000, k) || !num(item.substr(colon + 1), g_toks.size(), i)) return false;
-                script.emplace_back(k, i);
+                Item it{0, 'f', 0, 0};
+                std::string act = item.substr(colon + 1);
+                if (!num(item.substr(0, colon), 100000, it.k)) return false;
+                if (act == "c") it.kind = 'c';
+                else if (!act.empty() && act[0] == 'a') { it.kind = 'a'; if (!num(act.substr(1), kMaxObj, it.a)) return false; }
+                else if (!act.empty() && act[0] == 'u') {
+                    it.kind = 'u';
+                    auto dot = act.find('.');
+                    if (dot == std::string::npos || act.find('.', dot + 1) != std::string::npos) return false;
+                    if (!num(act.substr(1, dot - 1), g_toks.size(), it.a) || !num(act.substr(dot + 1), kMaxObj, it.b)) return false;
+                } else if (!num(act, g_toks.size(), it.a)) return false;
+                script.push_back(it);
             }
         }
-        // The visiting order (cell order) and, when the callbacks remove other entries, the set of
+        // The visiting order (cell order) and, when the callbacks change other entries, the set of
         // entries still reached depend on which cells were reused: model-internal (M line).
-        // Property-level: without removals every live entry is visited once (sorted list); with
-        // removals no entry that is dead at the moment of its callback is visited.
-        std::vector<std::string> vis; std::vector<uint64_t> sorted; uint64_t k = 0, dead = 0;
+        // Property-level: without callbacks' calls every live entry is visited once (sorted list);
+        // with them no entry that is dead at the moment of its callback is visited, and no token
+        // handed out by an alloc() inside a callback equals an earlier one.
+        std::vector<std::string> vis, newtoks; std::vector<uint64_t> sorted; uint64_t k = 0, dead = 0, dup = 0;
+        const size_t ntok0 = g_toks.size();
+        std::vector<Token> fresh;
         c.foreach([&](int *p) {
-            if (p && g_toks.size() <= 3000) {
+            if (p && g_toks.size() + fresh.size() <= 3000) {
                 bool live = false;
                 for (auto &t : g_toks) if (c.at(t) == p) { live = true; break; }
+                if (!live) for (auto &t : fresh) if (c.at(t) == p) { live = true; break; }
                 if (!live) ++dead;
             }
-            for (auto &e : script) if (e.first == k) c.free(g_toks[e.second]);
+            for (auto &e : script) {
+                if (e.k != k) continue;
+                if (e.kind == 'f') c.free(g_toks[e.a]);
+                else if (e.kind == 'u') c.update(g_toks[e.a], objp(e.b));
+                else if (e.kind == 'c') c.clear();
+                else {
+                    Token t;
+                    try { t = c.alloc(objp(e.a)); } catch (const std::out_of_range &) { t = Token(); }
+                    if (!t.isNull()) {
+                        bool d = false;
+                        for (auto &o : g_toks) if (o == t) { d = true; break; }
+                        if (!d) for (auto &o : fresh) if (o == t) { d = true; break; }
+                        if (d) ++dup;
+                    }
+                    fresh.push_back(t);
+                    newtoks.push_back(std::to_string(t.id()) + "." + std::to_string(t.pos()));
+                }
+            }
             vis.push_back(objn(p));
             sorted.push_back((p >= g_objs && p < g_objs + kMaxObj) ? (uint64_t)(p - g_objs) : (p ? kMaxObj : 0));
             ++k;
         });
+        (void)ntok0;
+        for (auto &t : fresh) g_toks.push_back(t);
         std::sort(sorted.begin(), sorted.end());
         std::vector<std::string> sv; for (auto x : sorted) sv.push_back(x == kMaxObj ? "?" : std::to_string(x));
         std::cout << "P each " << (script.empty() ? comma(sv) : std::string("*")) << " size=" << c.size() << " deadvisit=" << dead
-                  << "\nM order " << comma(vis) << "\n";
+                  << " dup=" << dup << "\nM order " << comma(vis) << " toks=" << comma(newtoks) << "\n";
     } else return false;
     return true;
 }
@@ -135,6 +173,7 @@ struct Probe {
 static const uint64_t kPoolSlots = 16;
 static std::unique_ptr<tbox::ObjectPool<Probe>> g_pool;
 static Probe *g_slot[kPoolSlots];
+static uint64_t g_leaked = 0;      // objects abandoned alive when their pool was destroyed (never destructed, never freed)
 
 static void pool_status() {
     std::string vals;
@@ -145,7 +184,8 @@ static void pool_status() {
     }
     auto st = g_pool->getStat();
     std::cout << "P pool ctor=" << g_ctor << " dtor=" << g_dtor << " vals=" << vals << " stat=" << st.total_alloc_times << "/"
-              << st.total_free_times << "/" << st.peak_alloc_number << "/" << st.peak_free_number << " alias=" << (g_alias ? 1 : 0) << "\n";
+              << st.total_free_times << "/" << st.peak_alloc_number << "/" << st.peak_free_number << " alias=" << (g_alias ? 1 : 0)
+              << " leaked=" << g_leaked << "\n";
 }
 static void pool_free_all() {
     for (auto &p : g_slot) if (p) { g_pool->free(p); p = nullptr; }
@@ -163,6 +203,13 @@ static bool pool_line(const std::vector<std::string> &w) {
         pool_status();
     } else if (op == "new" && w.size() == 3 && (w[2] == "max" || num(w[2], 100000, v))) {
         pool_free_all();
+        if (w[2] == "max") g_pool.reset(new tbox::ObjectPool<Probe>());
+        else g_pool.reset(new tbox::ObjectPool<Probe>(v));
+        pool_status();
+    } else if (op == "drop" && w.size() == 3 && (w[2] == "max" || num(w[2], 100000, v))) {
+        // ~ObjectPool() with live objects: it must not touch their storage (ASan + the values read by
+        // later status lines would show it) and runs no destructor; the objects stay where they are
+        for (auto &p : g_slot) if (p) { ++g_leaked; p = nullptr; }
         if (w[2] == "max") g_pool.reset(new tbox::ObjectPool<Probe>());
         else g_pool.reset(new tbox::ObjectPool<Probe>(v));
         pool_status();
@@ -238,16 +285,89 @@ static bool fd_line(const std::vector<std::string> &w) {
     return true;
 }
 
+// ---------------------------------------------------------------- LifetimeTag / Watcher
+using tbox::LifetimeTag;
+typedef LifetimeTag::Watcher Watcher;
+static const uint64_t kLtTags = 4, kLtWs = 6;
+static std::unique_ptr<LifetimeTag> g_t[kLtTags];     // empty = no tag object in the slot
+static std::unique_ptr<Watcher> g_w[kLtWs];           // always an object
+static std::vector<const void *> g_details;           // detail records in creation order (label = index)
+
+static void lt_note(uint64_t i) { g_details.push_back(g_t[i]->d_); }
+static void lt_status() {
+    std::string alive, nl, tags, cnt;
+    for (uint64_t w = 0; w < kLtWs; ++w) {
+        alive += g_w[w]->isAlive() ? "1" : "0";
+        if ((bool)(*g_w[w]) != g_w[w]->isAlive()) alive += "!";
+        nl += g_w[w]->isNull() ? "1" : "0";
+        if (w) cnt += ",";
+        cnt += g_w[w]->d_ ? std::to_string(g_w[w]->d_->watcher_counter) : std::string("-");
+    }
+    for (uint64_t i = 0; i < kLtTags; ++i) tags += g_t[i] ? "1" : "0";
+    std::vector<std::string> freed;
+#if defined(__SANITIZE_ADDRESS__)
+    // a deleted record sits in ASan's quarantine: its bytes are poisoned
+    for (size_t d = 0; d < g_details.size(); ++d) if (__asan_address_is_poisoned(g_details[d])) freed.push_back(std::to_string(d));
+    std::string fr = comma(freed);
+#else
+    std::string fr = "?";
+#endif
+    std::cout << "P lt alive=" << alive << " null=" << nl << " tags=" << tags << " freed=" << fr << "\nM cnt=" << cnt << "\n";
+}
+static bool lt_line(const std::vector<std::string> &w) {
+    uint64_t a = 0, b = 0;
+    const std::string &op = w[1];
+    bool two = w.size() == 4, one = w.size() == 3;
+    if (op == "tnew" && one && num(w[2], kLtTags, a)) {
+        g_t[a].reset(); g_t[a].reset(new LifetimeTag()); lt_note(a);
+    } else if (op == "tdel" && one && num(w[2], kLtTags, a)) {
+        g_t[a].reset();
+    } else if ((op == "tcpc" || op == "tmvc") && two && num(w[2], kLtTags, a) && num(w[3], kLtTags, b) && a != b) {
+        if (!g_t[b]) { std::cout << "P absent\n"; return true; }
+        g_t[a].reset();
+        if (op == "tcpc") g_t[a].reset(new LifetimeTag(*g_t[b])); else g_t[a].reset(new LifetimeTag(std::move(*g_t[b])));
+        lt_note(a);
+    } else if ((op == "tcpa" || op == "tmva") && two && num(w[2], kLtTags, a) && num(w[3], kLtTags, b)) {
+        if (!g_t[a] || !g_t[b]) { std::cout << "P absent\n"; return true; }
+        if (op == "tcpa") *g_t[a] = *g_t[b]; else *g_t[a] = std::move(*g_t[b]);
+    } else if (op == "wnew" && one && num(w[2], kLtWs, a)) {
+        g_w[a].reset(); g_w[a].reset(new Watcher());
+    } else if ((op == "wtag" || op == "wset" || op == "wget") && two && num(w[2], kLtWs, a) && num(w[3], kLtTags, b)) {
+        if (!g_t[b]) { std::cout << "P absent\n"; return true; }
+        if (op == "wtag") { g_w[a].reset(); g_w[a].reset(new Watcher(*g_t[b])); }
+        else if (op == "wget") { g_w[a].reset(); g_w[a].reset(new Watcher(g_t[b]->get())); }
+        else *g_w[a] = *g_t[b];
+    } else if (op == "wcpc" && two && num(w[2], kLtWs, a) && num(w[3], kLtWs, b) && a != b) {
+        g_w[a].reset(); g_w[a].reset(new Watcher(*g_w[b]));
+    } else if (op == "wmvc" && two && num(w[2], kLtWs, a) && num(w[3], kLtWs, b) && a != b) {
+        g_w[a].reset(); g_w[a].reset(new Watcher(std::move(*g_w[b])));
+    } else if (op == "wcpa" && two && num(w[2], kLtWs, a) && num(w[3], kLtWs, b)) {
+        *g_w[a] = *g_w[b];
+    } else if (op == "wmva" && two && num(w[2], kLtWs, a) && num(w[3], kLtWs, b)) {
+        *g_w[a] = std::move(*g_w[b]);
+    } else if (op == "wswap" && two && num(w[2], kLtWs, a) && num(w[3], kLtWs, b)) {
+        g_w[a]->swap(*g_w[b]);
+    } else if (op == "wreset" && one && num(w[2], kLtWs, a)) {
+        g_w[a]->reset();
+    } else return false;
+    lt_status();
+    return true;
+}
+
 // ---------------------------------------------------------------- main
 static void reinit() {
     g_cab.reset(new Cabinet<int>()); g_toks.clear();
     if (g_pool) pool_free_all();
     g_pool.reset(new tbox::ObjectPool<Probe>());
-    g_ctor = g_dtor = 0; g_alias = false; g_live_addr.clear();
+    g_ctor = g_dtor = 0; g_alias = false; g_live_addr.clear(); g_leaked = 0;
     for (auto &f : g_fd) f.reset();
     for (auto &f : g_fd) f.reset(new Fd());
     for (auto &e : g_fd2res) ::close(e.first);          // leaked by the case before
     g_fd2res.clear(); g_closed.clear(); g_nres = 0;
+    for (auto &x : g_w) x.reset();
+    for (auto &x : g_t) x.reset();
+    for (auto &x : g_w) x.reset(new Watcher());
+    g_details.clear();
 }
 
 int main() {
@@ -263,12 +383,15 @@ int main() {
             if (w[0] == "cab") ok = cab_line(w);
             else if (w[0] == "pool") ok = pool_line(w);
             else if (w[0] == "fd") ok = fd_line(w);
+            else if (w[0] == "lt") ok = lt_line(w);
         }
         if (!ok) std::cout << "bad-op\n";
     }
     // release everything while the bookkeeping (g_fd2res, g_live_addr) is still alive: the close
     // function and the probe destructor must not run during static destruction
     for (auto &f : g_fd) f.reset();
+    for (auto &x : g_w) x.reset();
+    for (auto &x : g_t) x.reset();
     pool_free_all(); g_pool.reset(); g_cab.reset();
     std::cout.flush();
     return 0;
